@@ -136,10 +136,20 @@ func (cb *CircuitBreaker) transitionToOpen() {
 }
 
 func (cb *CircuitBreaker) transitionToHalfOpen() {
-	cb.state.Store(int32(CircuitHalfOpen))
+	// Concurrent callers can all observe the open state after the timeout. Only the first
+	// may reset the counters, and it must finish doing so before anyone counts a half-open
+	// admission, otherwise admissions already counted are wiped and more than
+	// HalfOpenRequests probes get through.
+	cb.mu.Lock()
+	defer cb.mu.Unlock()
+
+	if CircuitBreakerState(cb.state.Load()) != CircuitOpen {
+		return
+	}
 	cb.failures.Store(0)
 	cb.successes.Store(0)
 	cb.halfOpenRequests.Store(0)
+	cb.state.Store(int32(CircuitHalfOpen))
 }
 
 func (cb *CircuitBreaker) transitionToClosed() {
